@@ -8,3 +8,7 @@ pub use self::merkle_tree::*;
 pub mod pm_tree;
 #[cfg(feature = "pmtree-ft")]
 pub use self::pm_tree::*;
+
+/// Verification hook H2: call tracer for the tree backends (compiled only with `--cfg zerokit_verif`)
+#[cfg(zerokit_verif)]
+pub mod verif_trace;
